@@ -462,7 +462,12 @@ class Circuit:
                 and blk.init_timeout > 0.0]
         if start_tasks:
             self.log_debug("Initializing async sequential blocks")
-            await self._run_tasks("async init", start_tasks)
+            try:
+                await self._run_tasks("async init", start_tasks)
+            finally:
+                # if interrupted, do not leave the not yet awaited tasks running
+                for _blk, task, _timeout in start_tasks:
+                    task.cancel()
 
     @staticmethod
     def init_sblock(blk: block.SBlock, full: bool) -> None:
